@@ -317,8 +317,24 @@ fn main() {
                         let idx = d2.windows(4).position(|w| w == b"\r\n\r\n").unwrap_or(0);
                         let h: usize = d2.iter().map(|b| *b as usize).sum();
                         let cut = idx + 1 + h % 3;
-                        let rdr = Script::new(d2, vec![cut, usize::MAX / 2], false, false);
-                        match futures_lite::future::block_on(read_http_request(addr, &mut buf, rdr)) {
+                        // "bytes after the head stay available for the next message": when nothing follows the head in
+                        // the case, a second message follows it here -- a head sized so that it fits the 8 KiB buffer
+                        // only if the buffer is compacted (len(A) + len(B) > 8192), whose first 500 bytes arrive in the
+                        // same read as the end of the first head.  It must be readable from the same buffer.
+                        let alen = d2.len();
+                        let with_second = d2.ends_with(b"\r\n\r\n") && idx + 4 == alen && alen < 3500;
+                        let lb = (8192 - alen + 50).min(8000);
+                        let fill = lb - b"GET /second HTTP/1.1\r\nx-fill: \r\n\r\n".len();
+                        let mut stream = d2;
+                        let mut sched = vec![cut, usize::MAX / 2];
+                        if with_second {
+                            stream.extend_from_slice(b"GET /second HTTP/1.1\r\nx-fill: ");
+                            stream.extend(std::iter::repeat(b'p').take(fill));
+                            stream.extend_from_slice(b"\r\n\r\n");
+                            sched = vec![cut, alen - cut + 500, usize::MAX / 2];
+                        }
+                        let mut rdr = Script::new(stream, sched, false, false);
+                        match futures_lite::future::block_on(read_http_request(addr, &mut buf, &mut rdr)) {
                             Ok(r) => {
                                 let mut s = format!(
                                     "{} {} {} H{}",
@@ -329,6 +345,15 @@ fn main() {
                                 );
                                 for hd in r.headers.iter() {
                                     s.push_str(&format!(" {} {}", tok_of_bytes(hd.name.as_bytes()), tok_of_bytes(hd.value.as_bytes())));
+                                }
+                                if with_second && !r.body.is_pending() && r.body.len() == Some(0) {
+                                    let n2 = match futures_lite::future::block_on(read_http_request(addr, &mut buf, &mut rdr)) {
+                                        Ok(r2) if r2.url.path() == "/second"
+                                            && r2.headers.get_only("x-fill").map(|v| v.as_str().len()) == Some(fill) => "ok".to_string(),
+                                        Ok(_) => "err:different-request".to_string(),
+                                        Err(e) => format!("err:{}", format!("{e:?}").split(['(', ' ']).next().unwrap_or("?")),
+                                    };
+                                    s.push_str(&format!(" ; n2 {n2}"));
                                 }
                                 s
                             }
